@@ -86,6 +86,8 @@ class Mod(dict):
                 self[key] = Param(val)
         for group, members in groups.items():
             for member in members:
+                # the Param object may be used for other modules, too: do not write into it
+                self[member] = Param(**self[member])
                 self[member]['group'] = group
 
 
